@@ -1252,8 +1252,23 @@ func HarnessC13Bytes() {
 	verifrt.Assume(c[0] < 0x80 && !(c[0] >= '0' && c[0] <= '9'))
 	mut := src[:pos] + c + src[pos+1:]
 	verifrt.StepBudget(6000000, "the front end does not terminate within the step bound when one byte of the source is arbitrary")
-	Run(mut)
+	o := Run(mut)
 	verifrt.StepBudget(0, "")
+	// a character the lexer does not know is reported AT that character (the only byte that differs from the
+	// well-formed program), not wherever the lexer happens to stand when the diagnostics are printed
+	for _, d := range o.Ctx.Diagnostics.Diagnostics() {
+		// (a quote re-pairs the other quotes of the line, so the character reported may be another one: only the
+		// diagnostic that names the inserted character itself is bound to its position)
+		if c[0] == '"' || c[0] == '\'' || d.Message != "unrecognized character '"+c+"'" {
+			continue
+		}
+		for _, l := range d.Labels {
+			if l.Location != nil && l.Location.Start != nil {
+				verifrt.Assert(l.Location.Start.Index == pos && l.Location.Start.Line == 1, "the diagnostic for an unrecognized character does not point at that character")
+			}
+			break
+		}
+	}
 }
 
 
